@@ -260,7 +260,7 @@ Proof.
   - (* PLimit *)
     destruct (place (f_limit f) (t_nm t)) as [s e] eqn:Pl.
     assert (Ee : endof f (t_nm t) = e) by (unfold endof; rewrite Pl; reflexivity).
-    destruct (W32 <=? e + PAGE); cbn [fst snd]; [apply ret_fail_done; auto; congruence|].
+    destruct (W32 <=? round e PAGE); cbn [fst snd]; [apply ret_fail_done; auto; congruence|].
     destruct (t_map t <? e) eqn:Q; cbn [fst snd].
     + fin Pc. unfold need. rewrite Ee, Q. pose proof (round_page e) as (Rp & _).
       assert (Q2 : (N.max (f_size f) (round e PAGE) <? e) = false) by (apply N.ltb_ge; lia). rewrite Q2. lia.
